@@ -95,3 +95,6 @@ pub proof fn axiom_utf8_spec_bytes(s: &str)
 pub uninterp spec fn popcount32(x: u32) -> u32;
 pub assume_specification[ u32::count_ones ](x: u32) -> (r: u32)
     ensures r == popcount32(x), r <= 32;
+
+/// `Chars::count`: nothing is stated about the value (the crate has no business counting characters where bytes are meant)
+pub assume_specification<'a>[ <core::str::Chars<'a> as Iterator>::count ](it: core::str::Chars<'a>) -> (r: usize);
